@@ -244,3 +244,38 @@ def person_replaces_ai_token_commits_then_reset_soft():
         return _final(s)
     finally:
         s.destroy()
+
+
+def ci_squash_merge_of_two_commits_on_moved_base():
+    """D54: a pull request of two commits (the first adds two AI lines, the second deletes them and their neighbours) is squash-merged
+    on the server by plain git onto a base branch that has earlier commits; `git-ai ci local merge` took it for a rebase merge
+    (it walked two commits back from the squash commit, into the base branch) => the squash commit's note listed lines past the
+    end of the file and an older base commit's note was overwritten."""
+    s = _mk("d54", files=1)
+    try:
+        f0 = [s.line("human") for _ in range(6)]
+        s.human_write("f.txt", f0); s.commit_all("init")
+        f1 = f0[:3] + [s.line("S2")] + f0[3:]
+        s.ai_write("S2", "f.txt", f1); s.commit_all("hist")
+        s.commit_all("an empty commit on the base branch")
+        s.ensure_origin()
+        s.g("checkout", "-q", "-b", "pr")
+        f2 = f1 + [s.line("S1"), s.line("S1")]
+        s.ai_write("S1", "f.txt", f2); s.commit_all("pr0 adds two AI lines at the end")
+        f3 = f2[:5]
+        s.ai_write("S2", "f.txt", f3); s.commit_all("pr1 deletes the tail")
+        head_sha = s.head()
+        s.g("checkout", "-q", "main")
+        base_sha = s.head()
+        s.w.git("push", "-q", "origin", "+refs/heads/*:refs/heads/*", "+refs/notes/ai:refs/notes/ai", plain=True, tick=False)
+        s.w.git("merge", "--squash", "pr", plain=True)
+        s.w.git("commit", "-q", "-m", "squashed on the server", plain=True)
+        merge_sha = s.head()
+        s.w.git("push", "-q", "origin", "main", plain=True, tick=False)
+        p = s.w.ga("ci", "local", "merge", "--merge-commit-sha", merge_sha, "--base-ref", "main", "--head-ref", "pr",
+                   "--head-sha", head_sha, "--base-sha", base_sha)
+        if p.rc != 0:
+            s.violation("C02/ci-rewrite-failed", rc=p.rc, err=p.stderr[-300:])
+        return _final(s)
+    finally:
+        s.destroy()
